@@ -302,9 +302,14 @@ class World:
         for k, s in enumerate(self.ss):
             if len(s.fits):
                 P.append('SS%d=%s' % (k, srt(self.fit_idx[id(x)] for x in s.fits)))
+            # membership (`in`) must agree with iteration
+            if sorted(self.fit_idx[id(f)] for f in self.fits if f in s.fits) != sorted(self.fit_idx[id(x)] for x in s.fits):
+                P.append('SS%d-contains-differs-from-iteration' % k)
         for k, s in enumerate(self.fl):
             if len(s.fits):
                 P.append('FL%d=%s' % (k, srt(self.fit_idx[id(x)] for x in s.fits)))
+            if sorted(self.fit_idx[id(f)] for f in self.fits if f in s.fits) != sorted(self.fit_idx[id(x)] for x in s.fits):
+                P.append('FL%d-contains-differs-from-iteration' % k)
         return ';'.join(P)
 
     # ------------------------------------------------------------ structured views for the oracles
